@@ -8,6 +8,7 @@ __all__ = [
 ]
 
 import sys
+import unittest
 
 from testtools.testresult import ExtendedToOriginalDecorator
 
@@ -108,14 +109,7 @@ class RunTest:
             if self._exceptions:
                 # One or more caught exceptions, now trigger the test's
                 # reporting method for just one.
-                e = self._exceptions.pop()
-                # An exception that is not an Exception (KeyboardInterrupt,
-                # SystemExit) must not be swallowed because a later stage
-                # raised something else: it decides the outcome.
-                for caught in self._exceptions:
-                    if not isinstance(caught, Exception):
-                        e = caught
-                        break
+                e = self._select_exception()
                 for exc_class, handler in self.handlers:
                     if isinstance(e, exc_class):
                         handler(self.case, self.result, e)
@@ -126,6 +120,30 @@ class RunTest:
         finally:
             result.stopTest(self.case)
         return result
+
+    def _select_exception(self):
+        """Choose the caught exception that decides the test's outcome.
+
+        Normally that is the most recent one.  However an exception that is
+        not an Exception (KeyboardInterrupt, SystemExit) must not be swallowed
+        because a later stage raised something else, and a skip or an expected
+        failure raised by a later stage (a cleanup, say) must not mask the
+        failure or error of an earlier one.
+        """
+        # Circular import.
+        from testtools.testcase import _ExpectedFailure
+
+        for e in self._exceptions:
+            if not isinstance(e, Exception):
+                return e
+        informational = (
+            getattr(self.case, "skipException", unittest.SkipTest),
+            _ExpectedFailure,
+        )
+        for e in reversed(self._exceptions):
+            if not isinstance(e, informational):
+                return e
+        return self._exceptions[-1]
 
     def _run_core(self):
         """Run the user supplied test code."""
